@@ -12,18 +12,26 @@ import (
 // print exactly like pool types 0 and 1.
 const (
 	TwinBase    = NumTypes
-	NumTypesAll = NumTypes + 2
+	ErrIface    = NumTypes + 2 // the interface type `error`
+	ErrImpl     = NumTypes + 3 // TE, a token-carrying implementation of error
+	NumTypesAll = NumTypes + 4
 )
 
+// TE is a provenance-carrying value that implements error. It is used only in
+// C10's "convert to error" histories.
+type TE struct{ ID uint64 }
+
+func (e TE) Error() string { return fmt.Sprintf("TE#%d", e.ID) }
+
 func init() {
-	Types = append(Types, reflect.TypeOf(alt.T0{}), reflect.TypeOf(alt.T1{}))
+	Types = append(Types, reflect.TypeOf(alt.T0{}), reflect.TypeOf(alt.T1{}), reflect.TypeOf((*error)(nil)).Elem(), reflect.TypeOf(TE{}))
 	for i, t := range Types {
 		simrt.RegisterType(t, i)
 	}
 }
 
 // IsIface reports whether pool type t is an interface type.
-func IsIface(t int) bool { return t >= IfaceBase && t < IfaceBase+NumIface }
+func IsIface(t int) bool { return (t >= IfaceBase && t < IfaceBase+NumIface) || t == ErrIface }
 
 // Implements reports whether pool type s can be assigned to pool type p.
 func Implements(s, p int) bool {
@@ -33,11 +41,17 @@ func Implements(s, p int) bool {
 	if !IsIface(p) {
 		return false
 	}
+	if s >= TwinBase && s != ErrImpl {
+		return false
+	}
 	return Types[s].Implements(Types[p])
 }
 
 // Implementors lists the concrete pool types assignable to interface type p.
 func Implementors(p int) []int {
+	if p == ErrIface {
+		return []int{ErrImpl}
+	}
 	var out []int
 	for i := 0; i < IfaceBase; i++ {
 		if IsIface(p) && Types[i].Implements(Types[p]) {
@@ -76,6 +90,8 @@ func MakeValue(t int, id uint64) interface{} {
 		return alt.T0{ID: id}
 	case t == TwinBase+1:
 		return alt.T1{ID: id}
+	case t == ErrImpl:
+		return TE{ID: id}
 	default:
 		return MakeValue(Implementors(t)[0], id)
 	}
